@@ -237,6 +237,9 @@ def p_c04(run):
     run_scripts(run, G.gen_c04(run.rng, run.tier), std_variants(run, cfgs))
 def p_c05(run):
     cfgs = ("native",) if run.tier == "quick" else ("native", "w32", "noua", "w32noua")
+    import whole as W
+    q = run.tier == "quick"
+    whole_tie(run, ("native", "w32") if q else ("native", "w32", "noua", "neutral", "neutral32"), W.pctr_parts(q))
     run_scripts(run, G.gen_c05(run.rng, run.tier), std_variants(run, cfgs))
 
 KNOWN = json.load(open(os.path.join(C.VERIF, "known_findings.json")))
